@@ -7,7 +7,7 @@ import sys
 
 VERIF = os.path.dirname(os.path.dirname(os.path.abspath(__file__)))
 EQUIV = {
-    "S09-running-flag-not-reset": "no listed property speaks about is_running in a non-execution session",
+    "S09-running-flag-not-reset": "C09 has no claim about the flag itself; since seeded round 17 C08 reports the consequence (the market price moves in a session without execution)",
     "X01-cycle-check-skips-self": "equivalent: a self-loop is reported one iteration later",
     "A14-arb-acts-when-component-stopped": "outside the statement (C20 says nothing about stopped markets); observed, not judged",
     "Q17-both-market-branch-strict": "not a violation: the engine merely matches more market-order pairs (outside C03's premise)",
